@@ -52,6 +52,34 @@ def check_rotation(case, s):
     return [] if d <= tol(case, a, b) else ["rotating the data by %d cells: solution differs from rotated solution by %.3e" % (s, d)]
 
 
+def coarsen_bc(case, factor):
+    """the same kind of problem with wall data given on a circumferential grid `factor` times coarser
+    than the tube's (documented: the BC grid need not agree with the tube grid); tube nt is made a
+    multiple of the BC nt so that a whole BC cell is a whole number of tube cells"""
+    c = copy.deepcopy(case)
+    c.bc_nt = max(2, case.nt // factor)
+    c.nt = c.bc_nt * factor
+    for name in ("inner_data", "outer_data"):
+        d = getattr(c, name)
+        kind = c.inner if name.startswith("inner") else c.outer
+        if d is not None and kind in ("fix", "flux"):
+            setattr(c, name, np.array(d[:, np.arange(c.bc_nt) % d.shape[1], :]))
+    if c.T0field is not None:
+        c.T0field = None
+    return c
+
+
+def check_rotation_coarse(case, factor, sbc):
+    """rotate the wall data by `sbc` whole BC cells = sbc*factor tube cells"""
+    c = coarsen_bc(case, factor)
+    a = solve(c)
+    b = solve(rotate_case(c, sbc))
+    d = float(np.max(np.abs(np.roll(a, sbc * factor, axis=2) - b)))
+    return [] if d <= tol(c, a, b) else [
+        "BC grid nt=%d on tube nt=%d: rotating the data by %d BC cells (= %d tube cells): solution differs from rotated solution by %.3e"
+        % (c.bc_nt, c.nt, sbc, sbc * factor, d)]
+
+
 def axisym(case):
     """make the wall data independent of theta"""
     c = copy.deepcopy(case)
@@ -145,7 +173,7 @@ def run(ctx):
     ctx.trusted = ["Lean 4 kernel + Mathlib (propext, Classical.choice, Quot.sound)",
                    "harness/thermal_common.py capture of the real step system",
                    "differences compared at 2e-6 relative (Newton tolerance of the real solves)"]
-    ctx.assumptions = ["boundary-condition grid equals the tube grid, so that rotating the data is exact"]
+    ctx.assumptions = ["rotations are by whole cells of both the tube grid and the boundary-condition grid (BC grid = tube grid, or 2-3 times coarser)"]
     thm_ok = common.lean_stage(ctx, [("SrProps.C12", "SrProps/C12.lean", "SrProps.C12")])
     rng = ctx.rng
     n_corr = 30 if ctx.quick() else 300
@@ -168,6 +196,10 @@ def run(ctx):
                 bad += [("rotation", m, {"shift": s}) for m in check_rotation(c, s)]
             if n % 2 == 0:
                 bad += [("abstraction", m, {}) for m in check_abstractions(c)]
+            if n % 3 == 1 and any(k in ("fix", "flux") for k in (c.inner, c.outer)):
+                factor = rng.choice([2, 3])
+                sbc = rng.randint(1, max(1, c.nt // factor - 1))
+                bad += [("rotation-coarse-bc", m, {"factor": factor, "shift": sbc}) for m in check_rotation_coarse(c, factor, sbc)]
             if c.mat_T is None:
                 bad += [("superposition", m, {}) for m in check_superposition(c, rng)]
         except (RuntimeError, ValueError) as e:
@@ -200,6 +232,8 @@ def replay(obj):
     c = tc.Case.from_json(r["case"])
     if r["check"] == "rotation":
         bad = check_rotation(c, r["shift"])
+    elif r["check"] == "rotation-coarse-bc":
+        bad = check_rotation_coarse(c, r["factor"], r["shift"])
     elif r["check"] == "abstraction":
         bad = check_abstractions(c)
     else:
